@@ -174,8 +174,13 @@ class Driver:
         from aws_durable_execution_sdk_python.execution import durable_execution
         cfg = self.cfg
         modes = cfg["page_modes"]
-        mode = modes[self.chooser.env("page", len(modes))] if self.inv > 0 else (
-            modes[0] if modes[0] in (0, 4) else 0)
+        first_modes = cfg.get("first_page_modes")   # pagination of the very first invocation's payload (EXECUTION row only)
+        if self.inv > 0:
+            mode = modes[self.chooser.env("page", len(modes))]
+        elif first_modes:
+            mode = first_modes[self.chooser.env("page", len(first_modes))]
+        else:
+            mode = modes[0] if modes[0] in (0, 4) else 0
         event = self.backend.make_event(mode)
         handler = dsl.Interp(self.program, self.world, self).handler()
         wrapped = durable_execution(handler, boto3_client=self.backend)
